@@ -19,11 +19,21 @@ TargetsOf(mode) == IF mode = "slices" THEN CountTargets(6)
                    ELSE IF mode = "general2" THEN SeqsUpTo(RowsAB(1), 3) \cup SeqsUpTo(RowsAB(2), 2)
                    ELSE SeqsUpTo(RowsAB(1), 3)
 
+\* operations incl. partial joins, which arrive in two shapes: as the model emitted them
+\* (fixed, p, common, res, lhs) or as projected from a real PartialJoin (fixed, p, min, max, lhs)
+FromJOpX(o) ==
+    IF o.o = "pjoin"
+    THEN IF Has(o, "min")
+         THEN [o |-> "pjoin", fixed |-> FromJTree(o.fixed), p |-> o.p, common |-> SeqSet(o.min),
+               res |-> (o.hasmax /\ SeqSet(o.max) = SeqSet(o.min)), lhs |-> o.lhs]
+         ELSE [o |-> "pjoin", fixed |-> FromJTree(o.fixed), p |-> o.p, common |-> SeqSet(o.common), res |-> o.res, lhs |-> o.lhs]
+    ELSE FromJOp(o)
+
 Verdict(ev) ==
-    LET cur == FromJOp(ev.cur)
-        new == FromJOp(ev.new)
+    LET cur == FromJOpX(ev.cur)
+        new == FromJOpX(ev.new)
     IN IF ev.kind = "commute"
-       THEN LET k == Commutator(FromJOp(ev.first), FromJOp(ev.second), ev.done)
+       THEN LET k == Commutator(FromJOpX(ev.first), FromJOpX(ev.second), ev.done)
                 ok == CommuteLaw(new, cur, k, TCOf(ev.mode), TargetsOf(ev.mode))
             IN [ok |-> ok, kf |-> IF ~ok /\ KF_ProjPastDedup(new, cur) THEN "F2" ELSE "none"]
        ELSE IF ev.err # "none" THEN [ok |-> FALSE, kf |-> "none"]
